@@ -1423,6 +1423,10 @@ class Py2Cpp(ITranspiler):
 		secondary_raws = [self.reflections.type_of(node_of_elements[index]) for index in right_indexs]
 
 		# 項目ごとに分離
+		# XXX C++は比較演算子がビット演算子(& ^ |)より優先度が高いため、比較演算のオペランドのビット演算は括弧で囲う
+		if node.is_a(defs.Comparison):
+			elements = [f'({element})' if in_node.is_a(defs.OrBitwise, defs.XorBitwise, defs.AndBitwise) else element for in_node, element in zip(node_of_elements, elements)]
+
 		primary = elements[0]
 		operators = [elements[index] for index in operator_indexs]
 		secondaries = [elements[index] for index in right_indexs]
